@@ -33,6 +33,7 @@ func (m *pbLegacy) Marshal() ([]byte, error) {
 	}
 	return append([]byte(nil), m.Payload...), nil
 }
+
 // Unmarshal MERGES into the receiver, as golang/protobuf asks of a message's own Unmarshal ("should not reset the
 // receiver"): proto.Unmarshal resets the message first, so a decode still yields exactly b.
 func (m *pbLegacy) Unmarshal(b []byte) error { m.Payload = append(m.Payload, b...); return nil }
